@@ -199,9 +199,95 @@ def explain(ck: Check, s: sg.Schema, v: Any) -> Optional[List[int]]:
         return None
 
 
+
+class Pool:
+    """Per-schema pool of literals: every distinct literal is defined once and referred to by name
+    (the same bytes are observed under four build configurations; the `both` output repeats the
+    statements of `little` and `big`): identical text is the identical term."""
+
+    def __init__(self, i: int):
+        self.i = i
+        self.defs: List[str] = []
+        self.names: Dict[Tuple[str, str], str] = {}
+
+    def _get(self, ty: str, term: str) -> str:
+        key = (ty, term)
+        if key not in self.names:
+            nm = f"l_{self.i}_{len(self.names)}"
+            self.names[key] = nm
+            self.defs.append(f"Definition {nm} : {ty} := {term}.")
+        return self.names[key]
+
+    def zl(self, xs) -> str:
+        return self._get("list Z", zl(xs))
+
+    def stmts(self, terms: List[str]) -> str:
+        return self._get("list stmt", clist(terms))
+
+    def mtypes(self, term: str) -> str:
+        return self._get("list (chain * cty)", term)
+
+
+class Lets:
+    """let-bound shared subterms of one result group (vm_compute evaluates each once)."""
+
+    def __init__(self):
+        self.vars: Dict[str, str] = {}
+
+    def var(self, term: str) -> str:
+        if term not in self.vars:
+            self.vars[term] = f"x{len(self.vars)}"
+        return self.vars[term]
+
+    def wrap(self, body: str) -> str:
+        return "".join(f"let {v} := {t} in\n  " for t, v in self.vars.items()) + body
+
+
+class OpShards:
+    """Like pyside.Shards, but a schema contributes GROUPS: each a term of type list Z with one
+    meta per element; the shard's result is the concatenation of its groups."""
+
+    def __init__(self, ck: Check, tag: str, per_shard: int):
+        self.ck, self.tag, self.per = ck, tag, per_shard
+        self.items: List[Tuple[str, List[Tuple[str, List[Any]]]]] = []
+
+    def add(self, defs: str, groups: List[Tuple[str, List[Any]]]) -> None:
+        self.items.append((defs, groups))
+
+    def run(self, header: str, timeout: int = 900) -> List[Tuple[Any, int]]:
+        from vlib import coq_eval_many
+        files, layout = [], []
+        for si in range(0, len(self.items), self.per):
+            chunk = self.items[si:si + self.per]
+            path = os.path.join(self.ck.dir, f"{self.tag}_{si // self.per}.v")
+            body = [header]
+            names, metas = [], []
+            for defs, groups in chunk:
+                body.append(defs)
+                for term, ms in groups:
+                    nm = f"g_{len(names)}"
+                    body.append(f"Definition {nm} : list Z :=\n  {term}.")
+                    names.append(nm)
+                    metas.extend(ms)
+            body.append("Definition results : list Z := " + " ++ ".join(names + ["[]"]) + ".")
+            body.append("Eval vm_compute in results.")
+            with open(path, "w") as f:
+                f.write("\n".join(body) + "\n")
+            files.append(path)
+            layout.append(metas)
+        outs = coq_eval_many(files, timeout)
+        res = []
+        for path, metas in zip(files, layout):
+            codes = parse_zlist(outs[path], path)
+            if len(codes) != len(metas):
+                raise Broken(f"case file {os.path.basename(path)}: {len(metas)} cases but {len(codes)} results",
+                             outs[path][-1500:])
+            res.extend(zip(metas, codes))
+        return res
+
 # ---- the check ---------------------------------------------------------------------------------
 
-def run_opmode(ck: Check, prop_file: str, n_quick=(100, 36, 3), n_thorough=(1400, 4160, 6)) -> None:
+def run_opmode(ck: Check, prop_file: str, n_quick=(70, 30, 3), n_thorough=(1400, 4160, 6)) -> None:
     ck.assumptions.extend(ASSUME)
     ck.coverage["trusted_base"] = ["Coq 8.16.1 kernel + vm_compute", "tools/translate.py + tools/translate_opmode.py",
                                    "tools/t1_opmode.py", "tools/run_opmode.py + gcc + ctypes (x86-64)",
@@ -240,7 +326,7 @@ def run_opmode(ck: Check, prop_file: str, n_quick=(100, 36, 3), n_thorough=(1400
     results = run_workers("run_opmode.py", jobs, chunk=max(2, len(jobs) // 48), timeout=900)
     _t1 = _time.time()
 
-    sh = pyside.Shards(ck, ck.prop.lower(), per_shard=6)
+    sh = OpShards(ck, ck.prop.lower(), per_shard=max(1, min(6, -(-len(cases) // 32))))
     model_ok = ck.model_ok
     header = HEADER if model_ok else (
         "From Coq Require Import ZArith List Bool.\nFrom BP Require Import Bits Schema Spec.\n"
@@ -260,38 +346,40 @@ def run_opmode(ck: Check, prop_file: str, n_quick=(100, 36, 3), n_thorough=(1400
                          {"schema": sg.schema_to_json(s), "error": err, "origin": origin,
                           "obligation": "tie T1/T2 (implementation could not be run)"}, found_input=True)
             continue
-        defs = [f"Definition t_{i} : ty := {s.coq_ty()}."]
-        exprs: List[str] = []
-        metas: List[Any] = []
+        pool = Pool(i)
+        pool.defs.append(f"Definition t_{i} : ty := {s.coq_ty()}.")
+        groups: List[Tuple[str, List[Any]]] = []
         # ---------------- T1 ----------------
         if model_ok:
             try:
+                t1x: List[str] = []
+                t1m: List[Any] = []
                 msgs = messages_of(s, named)
                 cts = {e: CT1(r["c"][e], e) for e in ("little", "big", "both")}
                 go = GoT1(r["go"])
                 for k, (mname, mt) in enumerate(msgs):
-                    defs.append(f"Definition m_{i}_{k} : ty := {mt.coq()}.")
+                    pool.defs.append(f"Definition m_{i}_{k} : ty := {mt.coq()}.")
                     for e, coqe in (("little", "ELittle"), ("big", "EBig"), ("both", "EBoth")):
                         for enc in (True, False):
                             tag = f"c_{e}_{'enc' if enc else 'dec'}"
-                            defs.append(f"Definition p_{i}_{k}_{tag} : cbody := {cts[e].body(mt, mname, enc)}.")
-                            exprs.append(f"(if cbody_eqb p_{i}_{k}_{tag} (c_body {coqe} {cbool(enc)} m_{i}_{k}) then 0 else 4)")
-                            metas.append((i, "t1", f"{mname}:{tag}"))
+                            t1x.append(f"(if cbody_eqb {cts[e].body(mt, mname, enc, pool.stmts)} "
+                                       f"(c_body {coqe} {cbool(enc)} m_{i}_{k}) then 0 else 4)")
+                            t1m.append((i, "t1", f"{mname}:{tag}"))
                             n_stmt_funcs += 1
                         bl = cts[e].bytes_length.get(mname.replace("_", "").lower())
-                        exprs.append(f"(if mtypes_eqb {cts[e].member_types(mt, mname)} (member_types m_{i}_{k}) && "
-                                     f"({bl if bl is not None else -1} =? nbytes m_{i}_{k}) then 0 else 4)")
-                        metas.append((i, "t1", f"{mname}:c_{e}_struct"))
+                        t1x.append(f"(if mtypes_eqb {pool.mtypes(cts[e].member_types(mt, mname))} (member_types m_{i}_{k}) && "
+                                   f"({bl if bl is not None else -1} =? nbytes m_{i}_{k}) then 0 else 4)")
+                        t1m.append((i, "t1", f"{mname}:c_{e}_struct"))
                     for enc in (True, False):
                         tag = f"go_{'enc' if enc else 'dec'}"
-                        defs.append(f"Definition p_{i}_{k}_{tag} : list stmt := {go.body(mt, mname, enc)}.")
-                        exprs.append(f"(if stmts_eqb p_{i}_{k}_{tag} (go_body {cbool(enc)} m_{i}_{k}) then 0 else 4)")
-                        metas.append((i, "t1", f"{mname}:{tag}"))
+                        t1x.append(f"(if stmts_eqb {go.body(mt, mname, enc, pool.stmts)} (go_body {cbool(enc)} m_{i}_{k}) then 0 else 4)")
+                        t1m.append((i, "t1", f"{mname}:{tag}"))
                         n_stmt_funcs += 1
                     gsz = go.size.get(mname.replace("_", "").lower())
-                    exprs.append(f"(if mtypes_eqb {go.member_types(mt, mname)} (member_types m_{i}_{k}) && "
-                                 f"({gsz if gsz is not None else -1} =? nbytes m_{i}_{k}) then 0 else 4)")
-                    metas.append((i, "t1", f"{mname}:go_struct"))
+                    t1x.append(f"(if mtypes_eqb {pool.mtypes(go.member_types(mt, mname))} (member_types m_{i}_{k}) && "
+                               f"({gsz if gsz is not None else -1} =? nbytes m_{i}_{k}) then 0 else 4)")
+                    t1m.append((i, "t1", f"{mname}:go_struct"))
+                groups.append((clist(t1x), t1m))
             except T1Error as e:
                 t1_fail[i] = str(e)
         # ---------------- T2 ----------------
@@ -301,49 +389,58 @@ def run_opmode(ck: Check, prop_file: str, n_quick=(100, 36, 3), n_thorough=(1400
             ck.violation(f"the generated optimization-mode C could not be built or run: {err}",
                          {"schema": sg.schema_to_json(s), "error": err, "origin": origin,
                           "obligation": "tie T2 (implementation could not be run)"}, found_input=True)
-            sh.add("\n".join(defs) + "\n", exprs, metas)
+            sh.add("\n".join(pool.defs) + "\n", groups)
             continue
-        lv = py_leaves(s.top)
+        # which statement list each build configuration compiles (theorem C04_endian_branch)
+        branch = {"little": "c_le_body", "both": "c_le_body", "big": "c_be_body", "both_be": "c_be_body"}
         for k, v in enumerate(vals):
-            cv = sg.coq_val(s.top, v)
-            defs.append(f"Definition v_{i}_{k} : val := {cv}.")
+            pool.defs.append(f"Definition v_{i}_{k} : val := {sg.coq_val(s.top, v)}.")
             distinct.add((s.texts[s.main], json.dumps(sg.value_to_json(s.top, v), sort_keys=True)))
+            lets = Lets()
+            xs: List[str] = []
+            ms: List[Any] = []
             for cfg, coqe, macro in CFG:
                 rr = r["runs"][cfg][k]
                 n_eval += 1
-                enc_impl = zl(rr["enc"])
+                enc_impl = pool.zl(rr["enc"])
                 if rr.get("oob"):
                     ck.violation("generated -O code wrote outside the buffer / the struct, or Encode modified the struct",
                                  {"schema": sg.schema_to_json(s), "value": sg.value_to_json(s.top, v), "config": cfg,
                                   "origin": origin}, found_input=True)
+                w = lets.var(f"wire t_{i} v_{i}_{k}")
                 if not model_ok:
-                    exprs.append(f"(if zlist_eqb (wire t_{i} v_{i}_{k}) {enc_impl} then 0 else 2)")
-                    metas.append((i, "enc", (k, cfg)))
+                    xs.append(f"(if zlist_eqb {w} {enc_impl} then 0 else 2)")
+                    ms.append((i, "enc", (k, cfg)))
                     continue
-                body_e = f"(select {cbool(macro)} (c_body {coqe} true t_{i}))"
-                body_d = f"(select {cbool(macro)} (c_body {coqe} false t_{i}))"
-                exprs.append(f"((if opt_zlist_eqb (run_encode {body_e} t_{i} v_{i}_{k}) {enc_impl} then 0 else 1) + "
-                             f"(if zlist_eqb (wire t_{i} v_{i}_{k}) {enc_impl} then 0 else 2))")
-                metas.append((i, "enc", (k, cfg)))
-                exprs.append(f"((if opt_pats_eqb (run_decode {body_d} t_{i} {enc_impl}) {zl(rr['dec'])} then 0 else 1) + "
-                             f"(if zlist_eqb (mem_pats (store (norm t_{i}) v_{i}_{k})) {zl(rr['dec'])} then 0 else 2))")
-                metas.append((i, "dec", (k, cfg)))
-                dirty = clist(f"{int.from_bytes(bytes([0xA5] * z), 'little')}" for _, z in r["layout"][cfg]["leaves"])
-                exprs.append(f"(if opt_pats_eqb (run_decode_from {body_d} (dirty_mem (norm t_{i}) {dirty}) {enc_impl}) "
-                             f"{zl(rr['dirty'])} then 0 else 1)")
-                metas.append((i, "dirty", (k, cfg)))
+                me = lets.var(f"run_encode ({branch[cfg]} true t_{i}) t_{i} v_{i}_{k}")
+                xs.append(f"((if opt_zlist_eqb {me} {enc_impl} then 0 else 1) + (if zlist_eqb {w} {enc_impl} then 0 else 2))")
+                ms.append((i, "enc", (k, cfg)))
+                md = lets.var(f"run_decode ({branch[cfg]} false t_{i}) t_{i} {enc_impl}")
+                sp = lets.var(f"mem_pats (store (norm t_{i}) v_{i}_{k})")
+                dec_impl = pool.zl(rr["dec"])
+                xs.append(f"((if opt_pats_eqb {md} {dec_impl} then 0 else 1) + (if zlist_eqb {sp} {dec_impl} then 0 else 2))")
+                ms.append((i, "dec", (k, cfg)))
+                if k == 0:           # decode into a struct pre-filled with 0xA5 (tie only)
+                    dirty = pool.zl([int.from_bytes(bytes([0xA5] * z), "little") for _, z in r["layout"][cfg]["leaves"]])
+                    mdd = lets.var(f"run_decode_from ({branch[cfg]} false t_{i}) (dirty_mem (norm t_{i}) {dirty}) {enc_impl}")
+                    xs.append(f"(if opt_pats_eqb {mdd} {pool.zl(rr['dirty'])} then 0 else 1)")
+                    ms.append((i, "dirty", (k, cfg)))
+            groups.append((lets.wrap(clist(xs)), ms))
         if model_ok:
+            lets = Lets()
+            xs, ms = [], []
             for cfg, coqe, macro in CFG:
-                body_d = f"(select {cbool(macro)} (c_body {coqe} false t_{i}))"
                 for k, (data, rr) in enumerate(zip(jobs[i]["rand_bufs"], r["rand"][cfg])):
                     n_eval += 1
-                    exprs.append(f"(if opt_pats_eqb (run_decode {body_d} t_{i} {zl(data)}) {zl(rr['dec'])} then 0 else 1)")
-                    metas.append((i, "rand", (k, cfg)))
+                    md = lets.var(f"run_decode ({branch[cfg]} false t_{i}) t_{i} {pool.zl(data)}")
+                    xs.append(f"(if opt_pats_eqb {md} {pool.zl(rr['dec'])} then 0 else 1)")
+                    ms.append((i, "rand", (k, cfg)))
             # the probe's sizeof of every leaf is the model's storage size
-            sizes = clist(str(8 * z) for _, z in r["layout"]["little"]["leaves"])
-            exprs.append(f"(if zlist_eqb (map (fun x => csz (snd x)) (member_types t_{i})) {sizes} then 0 else 4)")
-            metas.append((i, "t1", "sizeof probe"))
-        sh.add("\n".join(defs) + "\n", exprs, metas)
+            sizes = pool.zl([8 * z for _, z in r["layout"]["little"]["leaves"]])
+            xs.append(f"(if zlist_eqb (map (fun x => csz (snd x)) (member_types t_{i})) {sizes} then 0 else 4)")
+            ms.append((i, "t1", "sizeof probe"))
+            groups.append((lets.wrap(clist(xs)), ms))
+        sh.add("\n".join(pool.defs) + "\n", groups)
 
     hdr = header + ("Definition dirty_mem (t : ty) (ps : list Z) : mem :=\n"
                     "  map (fun x => (fst (fst x), mkcell (leaf_cty (snd (fst x))) (snd x))) (combine (leaves t) ps).\n"
